@@ -192,4 +192,17 @@ PROPS = {
         'trusted_base': ['one representative operand per core type stands for the type (CPython operator dispatch is per type)',
                          'Type constructors / promote / clone: assumed contracts'],
     },
+    'C13': {
+        'sidecars': ['contracts/c13_history.py'],
+        'native': 'c13',
+        'level': 'other',
+        'explanation': 'Report.clear() is verified from its real source: every container of per-grading state is emptied, scalars '
+                       'are reset, pools forgotten, a new Formatter installed, the overridden-classes set emptied, and nothing '
+                       'else of the report changes (frame). Ground (complete by evaluation): for every attribute Report.__init__ '
+                       'assigns, a dirtied report after clear() equals a fresh Report(). Bounded B-history: all ordered pairs of '
+                       'a 14-entry corpus of (script, submission) gradings in one process against fresh-interpreter baselines. '
+                       'Executing arbitrary instructor scripts is beyond any contract, so the property itself is not proved.',
+        'trusted_base': ['clear_overridden_feedback / override restoration: assumed here, bounded under C20',
+                         'tool reset functions, Environment.__init__, command-line modes: bounded only (B-history)'],
+    },
 }
